@@ -73,8 +73,29 @@ func (e *Engine) VerifyFunc(fn *ssa.Function, ct *FuncContract) (obls []*Obligat
 		}
 		obls = c.obls
 	}()
+	c.fact(Not(Eq(c.me, Null)))
+	c.fact(Not(Select(c.allocHeap(st), c.me)))
+	for _, g := range c.ghostMaps() {
+		if g.kind == "owned" {
+			ks, _ := arrParts(g.sort)
+			h := c.heap(st, g.heap, g.sort)
+			c.fact(T(SBool, fmt.Sprintf("(forall ((k %s)) (! (not (= (select %s k) me)) :pattern ((select %s k))))", ks, h.S, h.S)))
+		}
+	}
 	c.monitorEntry(fr, st, ct)
+	if c.heldAtEntry == nil {
+		c.assumeGlobal(st, nil)
+	} else {
+		for _, g := range c.globalClauses() {
+			if !g.trans {
+				c.fact(c.translateBool(c.globalScope(g.pkg, st, nil), g.cl.E))
+			}
+		}
+	}
 	sc := c.contractScope(fn, ct, fv, args, st, st, nil)
+	for _, r := range ct.ClosureInv {
+		c.fact(c.translateBool(sc, r.E))
+	}
 	for _, r := range ct.Requires {
 		c.fact(c.translateBool(sc, r.E))
 		// a precondition that is just a boolean parameter (or its negation) fixes that parameter
@@ -157,6 +178,12 @@ func (c *VCtx) frameCheck(fn *ssa.Function, ct *FuncContract, args []Val, entry,
 	sort.Strings(names)
 	alloc0 := c.allocHeap(entry)
 	for _, k := range names {
+		if k == "G:now" {
+			if allowed[k] == "" && h0IsNot(out.heaps[k], c.heap(entry, k, SInt)) {
+				c.prove("frame."+k, "frame: abstract time does not advance (no synchronisation, no close) unless 'modifies time' is declared", out.pc, False, nil)
+			}
+			continue
+		}
 		if k == "G:alloc" || strings.HasPrefix(k, "G:visited") || k == "G:itermap" || k == "G:calltime" || strings.HasPrefix(k, "G:lastret:") {
 			// engine bookkeeping; always havocked at call sites of contracted functions
 			continue
@@ -234,3 +261,5 @@ func (c *VCtx) packageAxioms(pkg string) {
 		c.eng.assume("axiom " + shortPkg(pkg) + "." + ax.Name + ": " + ax.C.Src)
 	}
 }
+
+func h0IsNot(a, b *Term) bool { return a == nil || a.S != b.S }
